@@ -20,7 +20,13 @@ RULE = ("(a) operators._split_diff_combine on EVERY validity pattern of every li
         "linearity, roll-equivariance on rings. non-trivial = some run longer than the order with non-constant data")
 TRUSTED = ["harness/c04.py, harness/fieldio.py + driver JSON glue", "np.gradient / np.convolve / np.pad(mode='wrap') modelled by contract"]
 ASSUMPTIONS = ["exact-regime inputs (small integers, dyadic steps): every binary64 operation on the code path is exact, so equality is demanded"]
-UNPROVED = ["ring_shift for masks whose valid run crosses the periodic seam is FALSE of the code (known finding D17); proved for fully valid rings / restriction off"]
+UNPROVED = ["ring_shift for masks whose valid run crosses the periodic seam is FALSE of the code (known finding D17; the counterexample is proved on the "
+            "model: ring_shift_masked_counterexample, ring_shift_not_for_all_masks). Proved instead, for every mask: what the code computes run by run "
+            "(ring_inner_run: a run delimited inside the stored line gets the ring-run value; ring_head_run_seam / ring_tail_run_seam: a run at the seam is "
+            "differentiated with exactly one cell from the other side), ring_open_if_first/last_invalid, shift-equivariance for every rotation that keeps "
+            "all runs off the seam (ring_shift_off_seam, ring_shift_off_seam_one), reversal (ring_reverse), and ring_shift for fully valid rings / restriction off",
+            "n-d locality (diff_locality_nd), diff_refines_spec and diff_short_run_zero are stated for open axes; for a periodic axis the field-level statements are "
+            "diff_cell + diffRing_refines_spec (the spec applied to the wrap-padded line) and diff_invalid_zero (both kinds of axis)"]
 BUDGET = {"quick": 80, "thorough": 900}
 
 
